@@ -6,6 +6,9 @@ package reg
 
 import (
 	"crypto/ecdh"
+	"crypto/ecdsa"
+	"crypto/elliptic"
+	"crypto/x509"
 	"crypto/ed25519"
 	"crypto/rand"
 	"encoding/json"
@@ -60,6 +63,7 @@ type NodeSt struct {
 	PrevK   string `json:"prevk"`
 	PrevSrv int    `json:"prevsrv"`
 	PrevEnc string `json:"prevenc"`
+	Kt      string `json:"kt"`
 }
 
 type Line struct {
@@ -123,7 +127,7 @@ func (r *run) state() St {
 	st := St{Nodes: map[string]NodeSt{}, Tokens: map[string]world.TokProj{}, Regw: p.Regw}
 	for k, n := range p.Nodes {
 		st.Nodes[k] = NodeSt{Present: n.Present, Nonce: n.Nonce, Enc: n.Enc, State: n.State, Srv: n.Srv, Nid: n.Nid,
-			PrevK: n.PrevK, PrevSrv: n.PrevSrv, PrevEnc: n.PrevEnc}
+			PrevK: n.PrevK, PrevSrv: n.PrevSrv, PrevEnc: n.PrevEnc, Kt: n.Kt}
 		if n.Srv > st.Gen {
 			st.Gen = n.Srv
 		}
@@ -280,6 +284,39 @@ func (r *run) step(op map[string]any, ln *Line) {
 			panic(err)
 		}
 		if err := nNew.Store(w.Ctx, w.Inner, w.StorageOpts()...); err != nil {
+			panic(err)
+		}
+		ln.Res = "ok"
+
+	case "SetKeyKind":
+		// storage-level edit: the record's certificate key becomes an ECDSA P-256 key
+		ni := &types.NodeInformation{Id: w.EnsureCertKey(s(op, "k")).KeyId}
+		if err := w.Inner.Load(w.Ctx, ni); err != nil {
+			ln.Res = "skip"
+			return
+		}
+		ec, err := ecdsa.GenerateKey(elliptic.P256(), rand.Reader)
+		if err != nil {
+			panic(err)
+		}
+		pkix, err := x509.MarshalPKIXPublicKey(&ec.PublicKey)
+		if err != nil {
+			panic(err)
+		}
+		ni.CertificatePublicKeyPkix = pkix
+		if err := w.Inner.Store(w.Ctx, ni); err != nil {
+			panic(err)
+		}
+		ln.Res = "ok"
+
+	case "StripSrv":
+		ni := &types.NodeInformation{Id: w.EnsureCertKey(s(op, "k")).KeyId}
+		if err := w.Inner.Load(w.Ctx, ni); err != nil || len(ni.ServerEncryptionPrivateKeyBytes) == 0 {
+			ln.Res = "skip"
+			return
+		}
+		ni.ServerEncryptionPrivateKeyBytes = nil
+		if err := w.Inner.Store(w.Ctx, ni); err != nil {
 			panic(err)
 		}
 		ln.Res = "ok"
@@ -450,6 +487,13 @@ func (r *run) submit(op map[string]any, ln *Line) {
 	req, err := w.SignInfo(info, signer)
 	if err != nil {
 		panic(err)
+	}
+	if b(op, "prime") {
+		// the genuine request is presented once first (an ordinary, possibly unauthorised poll)
+		_, _ = registration.FetchNodeCredentials(w.Ctx, w.Store, req, w.Opts(
+			nodeenrollment.WithNotBeforeClockSkew(time.Duration(num(op, "sknb"))*gridUnit),
+			nodeenrollment.WithNotAfterClockSkew(time.Duration(num(op, "skna"))*gridUnit))...)
+		ln.Obs["primed"] = true
 	}
 	bit := -1
 	if _, ok := op["bit"]; ok {
@@ -670,7 +714,11 @@ func (r *run) rotate(op map[string]any, ln *Line) {
 			}
 		}
 	}
-	resp, err := rotation.RotateNodeCredentials(w.Ctx, w.Store, req, w.Opts()...)
+	var rotOpts []nodeenrollment.Option
+	if os := s(op, "ostate"); os != world.None {
+		rotOpts = append(rotOpts, nodeenrollment.WithState(w.States[os]))
+	}
+	resp, err := rotation.RotateNodeCredentials(w.Ctx, w.Store, req, w.Opts(rotOpts...)...)
 	opens := []string{}
 	innerOpens := []string{}
 	echo := false
